@@ -98,6 +98,8 @@ def NoW : Th K → Prop
   | .wPutNew _ _ _ _ _ _ => False
   | .wIncGet _ _ _ _ _ _ => False
   | .wIncPut _ _ _ _ _ _ _ => False
+  | .tGetMeta _ => False
+  | .tPutMeta _ _ => False
   | _ => True
 
 /-- `referenced` set of a `full_gc` that has finished reading the metadata -/
@@ -418,6 +420,8 @@ theorem step_CInv {s0 : State K} {T C : List Nat} {s : State K} {ths : List (Th 
   | wPutNew id t all d todo acc => exact absurd (hinv.noW _ hm) (by simp [NoW])
   | wIncGet id t all d todo acc => exact absurd (hinv.noW _ hm) (by simp [NoW])
   | wIncPut id t all d todo acc r => exact absurd (hinv.noW _ hm) (by simp [NoW])
+  | tGetMeta id => exact absurd (hinv.noW _ hm) (by simp [NoW])
+  | tPutMeta id a => exact absurd (hinv.noW _ hm) (by simp [NoW])
   | dGetMeta id =>
     simp only [stepTh]
     cases hf : find id s.arts with
